@@ -22,6 +22,10 @@ CHECKS = {
     "C09": ("independent reference checksums compared in situ on every EOF, completion decision and verify_checksum call; "
             "stand-alone prefix x chunk combinations that no transfer produces are NOT reached (DESIGN 6)", "5 C09, 6", "in-situ invariant vs reference checksums"),
     "C10": ("robustness oracle over synthetic PDU / API / time-step histories against all four handlers in every reachable step", "5 C10", "synthetic peer, exception + state-unchanged oracle"),
+    "C04": ("RetryModel (explicit counters and integer-millisecond deadlines of the three retry procedures) judged at every "
+            "handler call while one or both link directions go silent at tape-chosen points, permanently or for a while", "5 C04", "timing oracle on the virtual clock"),
+    "C20": ("routing table and routing/admission agreement judged on every routed PDU incl. synthetic kinds and header variants; "
+            "misroute and bad-status faults; table cells covered are measured (sampling, not enumeration)", "5 C20", "in-situ oracle + misroute fault"),
     "C15": ("indication model judged on every handler call in four populations; 2^4 switches per entity and 5 message variants", "5 C15", "in-situ invariant vs IndicationModel"),
 }
 NOT_BUILT = "check not built yet (work in progress, see DESIGN.md section 5)"
